@@ -635,29 +635,39 @@ func (w *world) anySlot() int {
 func (w *world) newIter() {
 	id := 1 + rnd.Intn(nit)
 	it := &iter{id: id}
-	r := rnd.Intn(10)
+	r := rnd.Intn(12)
+	if r >= 6 && r < 8 {
+		// SimpleIter: only when the overlay has nothing but the btree (try all slots)
+		r = 0
+		for _, s0 := range rnd.Perm(nslot) {
+			s := s0 + 1
+			if !w.slots[s].used {
+				continue
+			}
+			t := &stubTran{w: w, view: s}
+			si := index.NewSimpleIter(t, w.slots[s].ov)
+			if si == nil || reflect.ValueOf(si).IsNil() {
+				continue
+			}
+			it.kind, it.si, it.tran, it.view = "simple", si, t, s
+			w.emit("NewIter", "it", id, "kind", "simple", "ov", s, "li", 0)
+			r = -1
+			break
+		}
+	}
 	switch {
+	case r < 0:
 	case r < 6:
 		it.kind = "over"
 		it.oi = index.NewOverIter("tbl", 0)
 		it.view = w.pickView()
 		it.tran = &stubTran{w: w}
 		w.emit("NewIter", "it", id, "kind", "over", "ov", it.view, "li", 0)
-	case r < 7:
-		// SimpleIter: only when the overlay has nothing but the btree
-		s := w.anySlot()
-		t := &stubTran{w: w, view: s}
-		si := index.NewSimpleIter(t, w.slots[s].ov)
-		if si == nil || reflect.ValueOf(si).IsNil() {
-			return
-		}
-		it.kind, it.si, it.tran, it.view = "simple", si, t, s
-		w.emit("NewIter", "it", id, "kind", "simple", "ov", s, "li", 0)
-	case r < 8:
+	case r < 10:
 		s := w.anySlot()
 		it.kind, it.li = "bt", w.slots[s].ov.BtreeIter()
 		w.emit("NewIter", "it", id, "kind", "bt", "ov", s, "li", 0)
-	case r < 9:
+	case r < 11:
 		s := w.anySlot()
 		_, layers, _ := w.slots[s].ov.VerifParts()
 		j := 1 + rnd.Intn(len(layers))
@@ -844,7 +854,7 @@ func (w *world) step(it *iter) {
 		var x index.IndexIter = it.si
 		if it.kind == "over" {
 			x = it.oi
-			if rnd.Intn(12) == 0 {
+			if rnd.Intn(12) == 0 || it.skip && rnd.Intn(6) == 0 {
 				it.view = w.pickView() // cursor style: another transaction
 			}
 			if !w.slots[it.view].used {
@@ -984,8 +994,13 @@ func (w *world) run(nops int) {
 				it := live[rnd.Intn(len(live))]
 				// runs of steps of the same iterator make the fast path and direction changes likely
 				for n := 1 + rnd.Intn(4); n > 0; n-- {
-					if w.atEof(it) && rnd.Intn(3) > 0 {
-						w.rewind(it)
+					if w.atEof(it) {
+						switch rnd.Intn(4) {
+						case 0, 1:
+							w.rewind(it)
+						case 2:
+							w.setRange(it)
+						}
 					}
 					w.step(it)
 				}
@@ -1006,7 +1021,14 @@ func (w *world) run(nops int) {
 				w.startTx()
 			}
 			if len(w.txs) > 0 {
-				w.txOp(w.txs[rnd.Intn(len(w.txs))])
+				t := w.txs[rnd.Intn(len(w.txs))]
+				n := 1
+				if rnd.Intn(4) == 0 {
+					n = 2 + rnd.Intn(6) // a burst: several keys of a group end up in one layer
+				}
+				for ; n > 0; n-- {
+					w.txOp(t)
+				}
 			}
 		case r < 87:
 			w.startTx()
